@@ -10,12 +10,19 @@ class LayoutError(Exception):
     pass
 
 
+# When set to a list, every read of the layout parsers is recorded as (absolute offset, width): the *field map* of a file,
+# which drives the field-targeted mutations of C16 (every header field, count, offset, size and instruction header the
+# parsers know about).
+TRACE = None
+
+
 class R:
     def __init__(self, data, pos=0):
         self.d, self.p = data, pos
 
     def take(self, n):
         if self.p + n > len(self.d) or n < 0: raise LayoutError('read past end at %d+%d/%d' % (self.p, n, len(self.d)))
+        if TRACE is not None: TRACE.append((self.p, n))
         b = self.d[self.p:self.p + n]; self.p += n
         return b
 
